@@ -62,7 +62,13 @@ fn v4(i: usize, salt: u8) -> SocketAddr {
 }
 
 fn v6(i: usize, salt: u8) -> SocketAddr {
-    SocketAddr::V6(SocketAddrV6::new(Ipv6Addr::new(0x2001, 0xdb8, salt as u16, i as u16, 0, 0xffff, 0, 1 + i as u16), 2000 + i as u16 * 263, 7, 9))
+    // every third IPv6 entry is an IPv4-mapped (::ffff:a.b.c.d) or IPv4-compatible (::a.b.c.d) address: still IPv6 entries
+    let ip = match i % 6 {
+        2 => Ipv6Addr::new(0, 0, 0, 0, 0, 0xffff, 0x0a00 | salt as u16, 0x0100 | i as u16),
+        5 => Ipv6Addr::new(0, 0, 0, 0, 0, 0, 0x0a00 | salt as u16, 0x0100 | i as u16),
+        _ => Ipv6Addr::new(0x2001, 0xdb8, salt as u16, i as u16, 0, 0xffff, 0, 1 + i as u16),
+    };
+    SocketAddr::V6(SocketAddrV6::new(ip, 2000 + i as u16 * 263, 7, 9))
 }
 
 fn addr_list(n4: usize, n6: usize, salt: u8) -> SmallVec<[SocketAddr; 4]> {
@@ -339,6 +345,16 @@ pub fn run_rot(c: &RotCase) -> CaseResult {
     let want_q = q.clone().filter(|v| !v.is_empty());
     if dec.verif_message_id() != c.id || dec.verif_propose() != &p[..] || dec.verif_confirm().map(|v| v.to_vec()) != want_q {
         return Err(Fail::new("roundtrip_mismatch", format!("rotation message {:?} decoded differently", c)));
+    }
+    // the receive path hands the decoder the message followed by whatever the buffer held before (here: 0x2a bytes, then a
+    // plausible "length + key" pattern): the decoded value must be the same
+    for tail in [vec![0x2au8; 300], { let mut t = vec![32u8]; t.extend(std::iter::repeat(7u8).take(40)); t }, vec![0u8; 64]] {
+        let mut with_tail = enc.clone();
+        with_tail.extend_from_slice(&tail);
+        let dec = cv::RotationMessage::read_from(Cursor::new(&with_tail)).map_err(|e| Fail::new("decode_failed", format!("with stale bytes behind the message: {}", e)))?;
+        if dec.verif_message_id() != c.id || dec.verif_propose() != &p[..] || dec.verif_confirm().map(|v| v.to_vec()) != want_q {
+            return Err(Fail::new("roundtrip_mismatch", format!("rotation message {:?} decoded differently when stale bytes follow it in the buffer (confirm = {:?})", c, dec.verif_confirm().map(|v| v.len()))).with("stale_tail", true));
+        }
     }
     Ok(1 + c.confirm_len.is_some() as u64)
 }
